@@ -12,11 +12,12 @@ package scan
 import (
 	"context"
 	"fmt"
-	"net"
 	"math/big"
 	"math/bits"
 	"math/rand"
+	"net"
 	"sort"
+	"sync"
 	"testing"
 	"time"
 
@@ -59,8 +60,8 @@ func c04gcd(a, b int64) int64 {
 }
 
 type c04case struct {
-	N    int64 `json:"n"`
-	Seed int64 `json:"rand_seed"`
+	N    int64  `json:"n"`
+	Seed int64  `json:"rand_seed"`
 	Why  string `json:"why"`
 }
 
@@ -508,5 +509,70 @@ func TestVerifC04(t *testing.T) {
 			}
 			run.Count("wide_subnet_prefixes_checked", 1)
 		}
+	}
+}
+
+// TestVerifC04Concurrent runs under the race detector (the main unit does not: it is a throughput unit).
+func TestVerifC04Concurrent(t *testing.T) {
+	run := vlab.Begin(t, "C04", "concurrent")
+	defer run.End()
+	// iterators are built from several goroutines at once (one per port range, one per pass, the port and the
+	// address generator of one scan side by side): the random draws must not depend on a source that is not
+	// safe for that - the race detector watches, and every iterator must still be a permutation
+	{
+		var wg sync.WaitGroup
+		var badMu sync.Mutex
+		bad := ""
+		for g := 0; g < 8; g++ {
+			wg.Add(1)
+			go func(g int) {
+				defer wg.Done()
+				defer func() {
+					if r := recover(); r != nil {
+						badMu.Lock()
+						bad = fmt.Sprintf("building an iterator panicked: %v", r)
+						badMu.Unlock()
+					}
+				}()
+				for k := 0; k < 4000; k++ {
+					n := int64(1 + (g*7919+k*104729)%300)
+					it, err := newRangeIterator(n)
+					if err != nil {
+						badMu.Lock()
+						bad = fmt.Sprintf("size %d refused: %v", n, err)
+						badMu.Unlock()
+						return
+					}
+					seen := make([]bool, n+1)
+					cnt := int64(0)
+					for {
+						v := it.Int().Int64()
+						if v < 1 || v > n || seen[v] {
+							badMu.Lock()
+							bad = fmt.Sprintf("size %d: value %d out of range or repeated (built concurrently)", n, v)
+							badMu.Unlock()
+							return
+						}
+						seen[v] = true
+						cnt++
+						if !it.Next() {
+							break
+						}
+					}
+					if cnt != n {
+						badMu.Lock()
+						bad = fmt.Sprintf("size %d: %d values", n, cnt)
+						badMu.Unlock()
+						return
+					}
+				}
+			}(g)
+		}
+		wg.Wait()
+		run.Eval(8 * 4000)
+		if bad != "" {
+			run.Violation("concurrent-construction", bad, nil)
+		}
+		run.Count("iterators_built_concurrently", 8*4000)
 	}
 }
